@@ -84,6 +84,23 @@ fn extra_cases(thorough: bool) -> Vec<(String, rosu_pp::Beatmap)> {
             v.push((spec.describe(), spec.decode()));
         }
     }
+    // intervals that differ by exactly the tolerance of "same rhythm" comparisons (5 ms) and by one millisecond more / less:
+    // every sequence of 5 gaps over {150, 155, 156, 160}, two colour patterns, taiko and osu!
+    for mode in [1u8, 0] {
+        let gaps = [150u32, 155, 156, 160];
+        for code in 0..4u32.pow(5) {
+            for colours in 0..2u8 {
+                let mut r = code;
+                let mut objs = vec![vh::gen::Obj { kind: Kind::Circle, gap: 0, pos: PosK::Far, sound: 0, col: 0 }];
+                for i in 0..5 {
+                    objs.push(vh::gen::Obj { kind: Kind::Circle, gap: gaps[(r % 4) as usize], pos: PosK::Far, sound: if colours == 1 && i % 2 == 0 { 8 } else { 0 }, col: 0 });
+                    r /= 4;
+                }
+                let spec = MapSpec::new(mode, objs);
+                v.push((spec.describe(), spec.decode()));
+            }
+        }
+    }
     // silences longer than 2^14 (and 2^15) strain sections between two bursts: run-length limits of a strain list
     for mode in 0..4u8 {
         for silence in [7_000_000u32, 14_000_000] {
